@@ -1,4 +1,4 @@
-import CalicoVerif.Proofs.C03Tiers
+import CalicoVerif.Proofs.C03Dirty
 /-!
 C03 — Each local endpoint gets exactly its matching policies, correctly ordered.
 
@@ -7,21 +7,62 @@ ExtractPolicyMetadata, PolicyResolver incl. pendingPolicyUpdates / dirty set / F
 `Model.C02.tierInfoToProto` (the ingress/egress split done by the EventSequencer).  Which endpoints a
 policy matches is an input relation (the real ActiveRulesCalculator supplies it in the harness).
 
-What is PROVED, for ALL histories of resolver inputs with flushes anywhere (`runR`): `Flush` never hits
-the `Sorted()` panic; every emitted endpoint update is the sorter's output — tiers ascending under
-`TierLess`, policies inside a tier ascending under `PolKVLess` — filtered to the policies that match
-the endpoint; at a flush in sync an emitted update lists EXACTLY the policies matching the endpoint,
-each with its current datastore metadata in the tier that metadata names
-(`emitted_lists_exact_partial`), with the datastore's tier attributes (`emitted_tier_attrs_partial`);
-the ingress/egress split follows the policy's types.  What is NOT proved (hence `_partial`):
-dirty-set completeness, i.e. that an endpoint a flush does not re-emit still has an up-to-date list —
-the last step to DESIGN §6's `resolver_eq_spec` ("last emitted list = list from scratch").  That is
-checked on the real code by the harness oracle, which recomputes every endpoint's list from scratch
-from the datastore state.  The exactness part was false of the code before commit c70bf97 (see the
-regression example at the end).
+What is PROVED, for ALL histories of resolver inputs with flushes anywhere: `resolver_eq_spec` — after
+any history followed by a flush in sync, the last update emitted for every local endpoint (re-emitted
+by that flush or not) is the from-scratch list `IsSpec` for the current datastore state, and `IsSpec`
+determines the list; `Flush` never hits the `Sorted()` panic; the ingress/egress split follows the
+policy's types (`split_by_type`).  The theorems named `_partial` below are the earlier, weaker
+statements (per emitted update / sorter content) kept as stepping stones.
+The clause "only policies that apply to some local endpoint are sent" is the ActiveRulesCalculator's
+(its OnPolicyActive/OnPolicyInactive calls towards the RuleScanner); the ARC is NOT modelled here
+(its match relation is an input), so that clause has no Lean theorem: it is established by the
+harness only (oracle signatures `inactive-policy-sent` / `active-policy-missing`, and the ARC's active
+set is compared on every flush line with the set of policies that have a match in the recorded match
+relation).  What Lean does prove on the resolver side: the sorter holds, and endpoints are sent, only
+policies with a live match (`sorter_content_exact_partial`, `resolver_eq_spec`).
+The exactness part was false of the code before commit c70bf97 (regression example at the end).
 -/
 namespace CalicoVerif.C03
 open CalicoVerif.C02
+
+/-- **`resolver_eq_spec` (the property, full strength).**  For ALL histories of resolver inputs
+(datastore updates for endpoints / policies / tiers, status changes, the ActiveRulesCalculator's match
+start/stop calls) with flushes at arbitrary points, whose policy keys have pairwise different
+tie-break strings (`KeyU`, true of validated Calico names): after the history followed by a flush
+with the resolver in sync, the LAST update emitted for EVERY local endpoint — whether that last flush
+re-emitted it or not (dirty-set completeness) — carries the endpoint's current data and a tier list
+`l` with `IsSpec ds all matched e l`, the from-scratch description w.r.t. the current datastore tier
+resources `ds`, policy metadata `all` and match relation `matched`: tiers ascending (existing tiers
+first, order, unset last, name) with the datastore tier's order / default action, no empty tier,
+policies ascending (order, default last, name/namespace/kind), and a policy is listed — with its
+current metadata, in the tier that metadata names — iff it matches the endpoint.  `IsSpec` determines
+the list (`isSpec_unique`), so this list equals the one a freshly started resolver fed only the final
+state emits.  An endpoint that does not exist has no update or a removal as its last update. -/
+theorem resolver_eq_spec (K : PolicyKey → Prop) (hK : KeyU K) (hist : List RStep) (hin : HistIn K hist)
+    (r : Resolver) (L : Last) (hr : runL {} (fun _ => none) (hist ++ [.flush]) = some (r, L)) (hsync : r.inSync = true)
+    (e : EpKey) :
+    match mget r.endpoints e with
+    | none => L e = none ∨ L e = some none
+    | some ep => ∃ l, L e = some (some ⟨ep, l⟩) ∧ IsSpec (dsHist [] hist) r.allPolicies r.matched e l := by
+  obtain ⟨r0, L0, calls, h0, hf, rfl⟩ := runL_append_flush hist hr
+  obtain ⟨r0', L0', h0', hinv⟩ := runL_inv hK (DInv.init K) hist hin
+  rw [h0] at h0'; simp only [Option.some.injEq, Prod.mk.injEq] at h0'
+  obtain ⟨rfl, rfl⟩ := h0'
+  have hinv' := hinv.flush hK hf
+  have hs0 : r0.inSync = true := by rw [← flush_inSync hf]; exact hsync
+  have hd : r.dirty = [] := ((flush_fields hf).2.2.2.1 hs0).1
+  have := hinv'.good e (by rw [hd]; simp)
+  exact this
+
+/-- no panic: the run of `resolver_eq_spec` always succeeds -/
+theorem resolver_run_total (K : PolicyKey → Prop) (hK : KeyU K) (hist : List RStep) (hin : HistIn K hist) :
+    ∃ r L, runL {} (fun _ => none) hist = some (r, L) := by
+  obtain ⟨r, L, h, _⟩ := runL_inv hK (DInv.init K) hist hin
+  exact ⟨r, L, h⟩
+
+/-- `IsSpec` is a complete description: two lists satisfying it for the same state are equal. -/
+theorem isSpec_determines_list {ds all matched e} {l₁ l₂ : List TierInfo} (h1 : IsSpec ds all matched e l₁)
+    (h2 : IsSpec ds all matched e l₂) : l₁ = l₂ := isSpec_unique h1 h2
 
 /-- Main theorem (partial, see header): for every history, no panic and every emitted update is
 `GoodUpdate`: ∃ a tier list sorted by `TierLess` whose tiers' policies are sorted by `PolKVLess`, of
@@ -216,6 +257,15 @@ example : (runR {} [.ev (.status true),
 example : KeyU (fun k => k = P ∨ k = Q ∨ k = R) := by
   constructor
   rintro a b (rfl | rfl | rfl) (rfl | rfl | rfl) h <;> first | rfl | (exfalso; revert h; decide)
+
+/-- `resolver_eq_spec` speaks about endpoints the last flush did NOT re-emit: here the second flush only
+re-emits nothing for `e` (an unrelated, non-matching policy changed), and the last update of `e` is still
+the one from the first flush. -/
+example : (runL {} (fun _ => none) [.ev (.status true), .ev (.tier "t1" (some (some 1, "Deny"))),
+    .ev (.endpoint E (some ⟨"x", []⟩)),
+    .ev (.matchStarted P E), .ev (.policy P (some ⟨"t1", none, false, false, false, []⟩)), .flush,
+    .ev (.policy Q (some ⟨"t1", some 3, false, false, false, []⟩)), .flush]).map (fun x => x.2 E) =
+  some (some (some ⟨⟨"x", []⟩, [⟨"t1", some 1, "Deny", true, [⟨P, ⟨none, false, false, false, true, true, "t1"⟩⟩]⟩]⟩)) := by decide
 
 /-- Regression for the defect fixed in /repo commit c70bf97 ("drop pending policy update when the
 policy's last match stops"): a policy matches and stops matching before the first flush, is then
